@@ -11,6 +11,16 @@ to 64 KiB, against every decode target, in stream mode (counting reader) and who
 call under recover(), a CPU-time watchdog and an allocation meter; (3) outcomes are judged with the
 rule of the spec (operator Allowed): Ok only on an item, consuming exactly ItemLen; Crash, Hang and
 AllocExceeded are no outcomes of the specification.
+
+Nested-encoded items (Cbor_Nest.tla): every decode target has a schema saying where it holds an item
+inside a byte string (bstr .cbor: cbor.Bstr / ByteWrap, COSE protected headers and typed payloads, the
+voucher header, to0d in TO0.OwnerSign, ovhProof ...); exactness applies at each of these positions
+(NestOK). TLC builds honest instances of the wire types, alters every nested position with the
+alphabet of inner mismatches (trailing items, truncated inner item, emptied) and prints the verdict of
+each case under every schema; the sweep runs every case against every target (judged by TLC's
+verdict), requires the honest instances to be accepted by the targets they are built for (controls),
+and applies the same rule, through a schema interpreter that must agree with TLC on every printed
+case, to every other input, among them seeded inner mismatches of real encoded messages.
 """
 import json
 import os
@@ -32,6 +42,16 @@ def _table(ctx, cfg, workers, timeout):
     return ctx.behaviours(r)
 
 
+def _nest(ctx, timeout):
+    r = ctx.tlc("Cbor_Nest", "Cbor_Nest.cfg", workers=4, timeout=timeout, quiet=True)
+    if r["errors"]:
+        raise Inconclusive("model-level error in Cbor_Nest (not a verdict about the code):\n%s" % r["out"][-4000:])
+    ctx.cov["states"] += r.get("distinct", 0) or 0
+    ctx.cov["transitions"] += r.get("generated", 0) or 0
+    ctx.notes.setdefault("tlc_runs", []).append({"module": "Cbor_Nest", "cfg": "Cbor_Nest.cfg", "generated": r.get("generated"), "distinct": r.get("distinct"), "wall_s": round(r["wall"], 1)})
+    return ctx.behaviours(r)
+
+
 def run(ctx):
     quick = ctx.quick()
     ctx.build_vh()
@@ -40,20 +60,37 @@ def run(ctx):
         f1 = ex.submit(ctx.model_check, "Cbor_MC", "Cbor_MC.cfg", workers=4, timeout=tmo, quiet=True)
         f2 = ex.submit(_table, ctx, "Cbor_Tab.cfg" if quick else "Cbor_Tab_big.cfg", 10, tmo)
         f3 = ex.submit(ctx.model_check, "Cbor_MC", "Cbor_MC_long.cfg", workers=2, timeout=tmo, quiet=True)
+        f4 = ex.submit(_nest, ctx, tmo)
         f1.result()
         f3.result()
         table = f2.result()
+        nest = f4.result()
     nstrings = sum(1 + len(l["reps"]) for l in table if "reps" in l)
     nshapes = sum(1 for l in table if l.get("shape"))
     if nstrings < 1000 or nshapes < 10:
         raise Inconclusive("verdict table too small: %d strings, %d shapes" % (nstrings, nshapes))
-    ctx.log("TLC: theorems checked; verdict table for %d byte strings and %d adversarial shapes" % (nstrings, nshapes))
+    ncases = [l for l in nest if "nest" in l]
+    nschemas = sum(len(l["nestschemas"]) for l in nest if "nestschemas" in l)
+    must_refuse = sum(1 for l in ncases if 0 in l["v"])
+    if len(ncases) < 300 or nschemas < 10 or must_refuse < 200 or not any(l["kind"] == "control" for l in ncases):
+        raise Inconclusive("nested-item table too small: %d cases (%d with a refusal), %d schemas" % (len(ncases), must_refuse, nschemas))
+    ctx.log("TLC: theorems checked; verdict table for %d byte strings and %d adversarial shapes; %d nested-item cases (%d to be refused by some target) under %d schemas" % (
+        nstrings, nshapes, len(ncases), must_refuse, nschemas))
 
     wd = ctx.sub("c12")
     tpath, rpath = os.path.join(wd, "table.json"), os.path.join(wd, "results.json")
     with open(tpath, "w") as f:
         json.dump(table, f)
-    args = ["cbor-decode-sweep", "-out", rpath, "-table", tpath, "-tier", ctx.tier, "-seed", ctx.seed]
+    # binding demonstration: VERIF_SELFTEST=flip-nest corrupts one verdict of the nested-item table
+    # (the schema interpreter of the harness must then disagree with the table: Inconclusive)
+    if os.environ.get("VERIF_SELFTEST") == "flip-nest":
+        l = next(l for l in ncases if l["nest"] == "voucher" and l["kind"] == "inner" and 0 in l["v"])
+        l["v"] = [1 - x for x in l["v"]]
+        ctx.log("SELFTEST: flipped the verdicts of one nested-item case: %s %s %s" % (l["nest"], l["path"], l["mut"]))
+    npath = os.path.join(wd, "nest.json")
+    with open(npath, "w") as f:
+        json.dump(nest, f)
+    args = ["cbor-decode-sweep", "-out", rpath, "-table", tpath, "-nest", npath, "-tier", ctx.tier, "-seed", ctx.seed]
     args += ["-sample3", 1024, "-nseeded", 2400] if quick else ["-nseeded", 60000]
     ctx.run_vh(args, timeout=1500 if quick else 5400)
     with open(rpath) as f:
@@ -65,6 +102,16 @@ def run(ctx):
         raise Inconclusive("the Go reference decoder disagrees with Cbor_Tab.tla on shared inputs (not a verdict about the code): %s" % json.dumps(res["ref_mismatch"][:5]))
     if res["table_inputs"] != nstrings + nshapes:
         raise Inconclusive("only %d of %d table inputs were cross-checked" % (res["table_inputs"], nstrings + nshapes))
+    if res["nest_inputs"] != len(ncases):
+        raise Inconclusive("only %d of %d nested-item cases were cross-checked" % (res["nest_inputs"], len(ncases)))
+    if res.get("nest_control_failed"):
+        raise Inconclusive("honest instances of Cbor_Nest.tla are refused by the targets they are built for (the instance or the schema does not describe the Go type; "
+                           "not a verdict about the code): %s" % "; ".join(res["nest_control_failed"][:5]))
+    want_controls = sum(len(l["for"]) for l in ncases if l["kind"] == "control")
+    if res["nest_controls"] != want_controls or res["nest_must_refuse_calls"] < 2 * must_refuse:
+        raise Inconclusive("vacuous nested-item run: %d of %d controls accepted, %d calls on cases to be refused" % (res["nest_controls"], want_controls, res["nest_must_refuse_calls"]))
+    ctx.log("nested items: %d cases cross-checked and run, %d controls accepted, %d calls on (input, target) pairs the specification wants refused" % (
+        res["nest_inputs"], res["nest_controls"], res["nest_must_refuse_calls"]))
 
     for d in (res["disagreements"] or [])[:MAX_REPORTED]:
         e = d["examples"][0]
@@ -88,6 +135,8 @@ def run(ctx):
     ctx.notes["inputs_by_class"] = res["inputs_by_class"]
     ctx.notes["inputs_by_kind"] = res["inputs_by_kind"]
     ctx.notes["ok_calls_by_target"] = res["ok_by_target"]
+    ctx.notes["nested_item_calls_to_be_refused_by_schema_and_input_kind"] = res["nest_must_refuse_by_schema"]
+    ctx.notes["nested_item_controls_accepted"] = res["nest_controls"]
     ctx.notes["max_alloc_bytes"] = res["max_alloc_bytes"]
     ctx.notes["max_alloc_at"] = res["max_alloc_at"]
     ctx.notes["max_call_cpu_ms"] = res["max_call_ms"]
@@ -96,10 +145,14 @@ def run(ctx):
     ctx.notes["alloc_budget"] = "64*len(input) + 4 MiB per call (runtime/metrics /gc/heap/allocs:bytes delta, single-threaded child processes); hang limit 10 s CPU per call"
     shape = next(l for l in table if l.get("shape") == "indef-arr")
     ctx.sample({"tlc_verdict": {"shape": shape["shape"], "bytes_hex": bytes(shape["bytes"]).hex(), "code": shape["code"], "meaning": "class indef (2), item length 3"}})
+    nl = next(l for l in ncases if l["nest"] == "voucher" and l["mut"] == "trailing-uint" and 0 in l["v"])
+    ctx.sample({"tlc_nested_case": {"instance": nl["nest"], "path": nl["path"], "mutation": nl["mut"], "bytes_hex": bytes(nl["bytes"]).hex(), "verdict_per_schema": nl["v"]}})
     line = next(l for l in table if l.get("p") == [130, 24])
     ctx.sample({"tlc_table_line": {"prefix_hex": bytes(line["p"]).hex(), "reps": line["reps"][:8], "code": line["code"][:8]}})
     ctx.assumptions += ["TLC 1.8.0 and the CommunityModules Json module",
                         "the Go reference (cborx.Verdict, harness/cb) judges inputs beyond the TLC table; it is compared with the table on every table input in every run",
+                        "the schemas of Cbor_Nest.tla (where a target nests items in byte strings) were read off the Go types; the honest instances must be accepted by the targets they name (checked in every run); "
+                        "unexported message types (DI.AppStart, DI.SetCredentials, TO0.OwnerSign, TO2.ProveOVHdr, TO2.OVNextEntry) are re-declared field by field in harness/cborx from the library's generic types",
                         "two-byte simple values below 32 (f8 00..f8 1f) and indefinite-length items may be refused or accepted with exact consumption (Cbor.tla Class len/indef)",
                         "allocation is measured with runtime/metrics (small-object accounting is per span, error of a few hundred KiB, inside the 4 MiB slack)"]
     return "model_checking"
